@@ -397,9 +397,9 @@ func canonSilences(sils []APISilence, gcBy time.Time, retention Dur) string {
 func init() {
 	Register(&Prop{
 		ID: "C18", Level: "exploration", Gen: c18Gen, Check: c18Check,
-		Rule: "seeded run with per-alert-name limit 1-4, GET concurrency 1-4, silence count limit 2-5 and size limit 200-600 bytes: 8-40 (thorough 20-100) admissions/heartbeats of limit+1..limit+3 instances of one alert name with unordered explicit end times (20 s-25 min), already-resolved submissions, provider GC every 10 s-3 min, a GET before and after each POST plus the limited-alerts counter; 3-10 silence creates/edits with comments around the size limit; 1-2 concurrency probes that park `limit` GETs on blocking response writers. Non-trivial: an admission, refusal, silence-limit or concurrency obligation was evaluated; distinct by abstract trace.",
-		Real: []string{"app.New wiring", "api (limitHandler) and api/v2 handlers", "provider/mem", "store + limit.Bucket", "silence.Set / size and count checks", "metrics registry"},
-		Stub: []string{"clock (synctest)", "client (in-memory HTTP; blocking response writers for the concurrency probe)"},
+		Rule:        "seeded run with per-alert-name limit 1-4, GET concurrency 1-4, silence count limit 2-5 and size limit 200-600 bytes: 8-40 (thorough 20-100) admissions/heartbeats of limit+1..limit+3 instances of one alert name with unordered explicit end times (20 s-25 min), already-resolved submissions, provider GC every 10 s-3 min, a GET before and after each POST plus the limited-alerts counter; 3-10 silence creates/edits with comments around the size limit; 1-2 concurrency probes that park `limit` GETs on blocking response writers. Non-trivial: an admission, refusal, silence-limit or concurrency obligation was evaluated; distinct by abstract trace.",
+		Real:        []string{"app.New wiring", "api (limitHandler) and api/v2 handlers", "provider/mem", "store + limit.Bucket", "silence.Set / size and count checks", "metrics registry"},
+		Stub:        []string{"clock (synctest)", "client (in-memory HTTP; blocking response writers for the concurrency probe)"},
 		Assumptions: []string{"the encoded size of a stored silence is bounded from below by the sum of its string fields; the check flags only silences whose strings alone exceed the limit"},
 	})
 }
